@@ -1,3 +1,539 @@
-(** C04 (stub, being filled) *)
-From KV Require Import C04_proofs.
-Theorem C04_stub : True. Proof. exact stub_true. Qed.
+(** C04 — Stroke outline fills exactly the offset region of the path.
+    Statements only. Model: coq/model/Stroke.v (the polyline stroker: [stroke_undashed] on
+    MoveTo/LineTo/ClosePath, [do_join], [do_line], [finish], [finish_closed], caps, [extend_reversed],
+    the join arc). Vocabulary: coq/spec/StrokeSpec.v.
+
+    What is proved: the structure of the outline (for every scalar type, so also for binary64), and,
+    at the real instance, the exact position of every vertex the polyline stroker emits: offsets at
+    -/+ width/2 on a consistent side, joins on the outer side, the miter point, the caps, the radius
+    bound for every vertex, the exact outline of a single segment.
+    What is NOT proved ([C04_full], at the end): the region-level statement (non-zero fill = offset
+    region) beyond one segment, and everything about curves (no model of [do_cubic]/[CubicOffset]/
+    [fit_to_bezpath]); those are covered only by the laws sampled on the implementation.
+
+    The join of the pinned code violates the property ([C04_pinned_inner_join_refuted]); the model has
+    the repaired join behind [sk_inner_pivot]. All theorems below hold for both values of the flag. *)
+From Coq Require Import ZArith Reals List Bool Lra.
+From KV Require Import Scalar RInst F64 Geom Curves Path Affine Stroke StrokeSpec C04_proofs C04_round C04_region C04_pieces C04_polyregion C04_polyfill C04_polyclosed C04_witness.
+Import ListNotations.
+Local Open Scope R_scope.
+
+(** ** structure *)
+
+(** Every contour of the outline starts with MoveTo, draws, and ends with ClosePath — for every input
+    made of MoveTo/LineTo/ClosePath (any history: leading LineTo, repeated points, LineTo after
+    ClosePath, empty sub-paths), every style with a butt or square start cap, and every scalar type,
+    in particular binary64. (A round start cap ends its contour with the cap arc instead: see
+    [C04_round_cap_returns].) *)
+Theorem C04_stroke_contours_closed :
+  forall (T : Type) (S : Scalar T) (st : StrokeStyle T) (els : list (PathEl T)) (tol : T) (out : list (PathEl T)),
+  sk_start_cap st <> CapRound ->
+  stroke_undashed els st tol = Some out -> closed_contours out.
+Proof. exact @stroke_contours_closed_any_scalar. Qed.
+
+(** the model answers on every input without curve elements *)
+Theorem C04_model_total_on_polylines :
+  forall (T : Type) (S : Scalar T) (st : StrokeStyle T) (els : list (PathEl T)) (tol : T),
+  Forall is_poly_el els -> exists out, stroke_undashed els st tol = Some out.
+Proof. exact @stroke_defined_on_polylines. Qed.
+
+(** an open sub-path with a non-degenerate segment gives exactly one contour, a closed one exactly two
+    ([finish_closed]: the forward path closed, then the backward path reversed and closed);
+    a sub-path all of whose points coincide gives nothing *)
+Theorem C04_open_subpath_one_contour :
+  forall (st : StrokeStyle R) (tol : R) (p0 : Point R) (ps : list (Point R)) (out : list (PathEl R)),
+  stroke_undashed (MoveTo p0 :: map (@LineTo R) ps) st tol = Some out ->
+  ((exists p, In p ps /\ p <> p0) -> n_contours out = 1%nat) /\
+  ((forall p, In p ps -> p = p0) -> out = []).
+Proof. exact open_subpath_one_contour_thm. Qed.
+
+Theorem C04_closed_subpath_two_contours :
+  forall (st : StrokeStyle R) (tol : R) (p0 : Point R) (ps : list (Point R)) (out : list (PathEl R)),
+  stroke_undashed (MoveTo p0 :: map (@LineTo R) ps ++ [ClosePath]) st tol = Some out ->
+  ((exists p, In p ps /\ p <> p0) -> n_contours out = 2%nat) /\
+  ((forall p, In p ps -> p = p0) -> out = []).
+Proof. exact closed_subpath_two_contours_thm. Qed.
+
+(** with a round start cap the single contour of an open sub-path is not closed by ClosePath; it ends,
+    by the cap arc (two cubics: the number of pieces is ceil(3.999999 * pi / (2 pi)) = 2 at the
+    hard-coded tolerance 1e-3), exactly at the point it started from. Real instance: sin/cos exact. *)
+Theorem C04_round_cap_returns :
+  forall (st : StrokeStyle R) (tol : R) (p0 : Point R) (ps : list (Point R)) (p1 : Point R)
+         (r : list (Point R)) (out : list (PathEl R)),
+  sk_start_cap st = CapRound -> first_edge p0 ps = Some (p1, r) ->
+  stroke_undashed (MoveTo p0 :: map (@LineTo R) ps) st tol = Some out ->
+  exists rest, out = MoveTo (offs (sk_width st) (-1) (vec p0 p1) p0) :: rest /\
+               Forall (@is_seg R) rest /\
+               last_end out = offs (sk_width st) (-1) (vec p0 p1) p0.
+Proof. exact round_cap_returns_thm. Qed.
+
+(** ** offsets *)
+
+(** [offs w s t p], the point the stroker puts on side [s] of the edge direction [t] at the vertex [p]:
+    exactly width/2 away from [p], perpendicular to the edge, strictly on the left of the direction of
+    travel for s = 1 and strictly on the right for s = -1. (Guard: the edge vector is non-zero; the
+    stroker skips zero-length segments.) *)
+Theorem C04_offset_point_spec :
+  forall (w s : R) (t : Vec2 R) (p : Point R), vnonzero t -> s * s = 1 ->
+  dist2 (offs w s t p) p = (w / 2) * (w / 2) /\
+  rdot (vec p (offs w s t p)) t = 0 /\
+  rcross t (vec p (offs w s t p)) = s * (w / 2) * vlen t.
+Proof.
+  intros w s t p Hn Hs. split; [exact (offs_dist w s t p Hn Hs)|].
+  split; [exact (offs_perp w s t p Hn) | exact (offs_side w s t p Hn)].
+Qed.
+
+(** offset_sides: after the lines of a polyline the forward path is [side_path .. false] and the backward
+    path [side_path .. true]: for every non-degenerate edge (a, b), in order, the forward path holds
+    a - n and b - n and the backward path a + n and b + n with the same n = the left normal of length
+    width/2 of that edge ([offs] with s = -1 resp. +1 throughout: a normal of the wrong sign on one
+    side contradicts this), separated by what [join_els] adds. No guard: points equal to their
+    predecessor are skipped by the stroker and by [side_path] alike. *)
+Theorem C04_offset_sides :
+  forall (st : StrokeStyle R) (tol : R) (p0 : Point R) (ps : list (Point R)) (c : StrokeCtx R),
+  stroke_loop st (ctx_init st tol) (MoveTo p0 :: map (@LineTo R) ps) = Some c ->
+  cx_forward c = side_path st (2 * tol / sk_width st) false p0 ps /\
+  cx_backward c = side_path st (2 * tol / sk_width st) true p0 ps /\
+  cx_output c = [].
+Proof. exact offset_sides_thm. Qed.
+
+(** the whole outline of an open polyline: forward path, end cap at the last point with the last edge's
+    direction, the backward path reversed, start cap at the first point with the first edge's direction *)
+Theorem C04_open_polyline_outline :
+  forall (st : StrokeStyle R) (tol : R) (p0 : Point R) (ps : list (Point R)),
+  stroke_undashed (MoveTo p0 :: map (@LineTo R) ps) st tol =
+  Some (match first_edge p0 ps with
+        | None => []
+        | Some (p1, r) =>
+            let t1 := vec p0 p1 in
+            let lp := fst (last_state p1 t1 r) in
+            let lt := snd (last_state p1 t1 r) in
+            side_path st (2 * tol / sk_width st) false p0 ps ++ end_cap_at st lp lt ++
+            extend_reversed (side_path st (2 * tol / sk_width st) true p0 ps) ++ start_cap_at st p0 t1
+        end).
+Proof. exact open_polyline_outline_thm. Qed.
+
+(** ... and of a closed one: ClosePath acts as a line back to the start, the closing join (last edge to
+    first edge) is added to both sides, and two closed contours come out *)
+Theorem C04_closed_polyline_outline :
+  forall (st : StrokeStyle R) (tol : R) (p0 : Point R) (ps : list (Point R)),
+  stroke_undashed (MoveTo p0 :: map (@LineTo R) ps ++ [ClosePath]) st tol =
+  Some (match first_edge p0 (ps ++ [p0]) with
+        | None => []
+        | Some (p1, r) =>
+            let th := 2 * tol / sk_width st in
+            let t1 := vec p0 p1 in
+            let lp := fst (last_state p1 t1 r) in
+            let lt := snd (last_state p1 t1 r) in
+            let fwd := side_path st th false p0 (ps ++ [p0]) ++ side_join st false lp lt th t1 in
+            let bwd := side_path st th true p0 (ps ++ [p0]) ++ side_join st true lp lt th t1 in
+            fwd ++ [ClosePath] ++ [MoveTo (last_end bwd)] ++ extend_reversed bwd ++ [ClosePath]
+        end).
+Proof. exact closed_polyline_outline_thm. Qed.
+
+(** ** joins (ab = incoming edge vector, cd = outgoing, both non-zero; X = ab x cd, D = ab . cd) *)
+
+(** nothing is added when the turn is forward and below the join threshold *)
+Theorem C04_join_skipped_below_threshold :
+  forall (st : StrokeStyle R) (p0 : Point R) (ab cd : Vec2 R) (th : R),
+  0 < rdot ab cd ->
+  Rabs (rcross ab cd) < sqrt (rcross ab cd * rcross ab cd + rdot ab cd * rdot ab cd) * th ->
+  join_els st p0 ab th cd = ([], [], 0%Z).
+Proof. exact join_skipped_thm. Qed.
+
+(** join_outer_side: for a left turn (X > 0) the forward side is the outer one — along the incoming
+    direction the new forward offset point lies ahead of the old one (a gap), the new backward one
+    behind it (an overlap) — and mirrored for a right turn; the repaired join's pivot goes to the inner
+    side only, and to neither when X = 0. *)
+Theorem C04_join_outer_side :
+  forall (st : StrokeStyle R) (p0 : Point R) (ab cd : Vec2 R),
+  vnonzero ab -> vnonzero cd -> 0 < sk_width st ->
+  let w := sk_width st in let X := rcross ab cd in
+  (0 < X ->
+     0 < rdot ab (vec (offs w (-1) ab p0) (offs w (-1) cd p0)) /\
+     rdot ab (vec (offs w 1 ab p0) (offs w 1 cd p0)) < 0 /\
+     piv_f st p0 X = [] /\ piv_b st p0 X = (if sk_inner_pivot st then [LineTo p0] else [])) /\
+  (X < 0 ->
+     rdot ab (vec (offs w (-1) ab p0) (offs w (-1) cd p0)) < 0 /\
+     0 < rdot ab (vec (offs w 1 ab p0) (offs w 1 cd p0)) /\
+     piv_b st p0 X = [] /\ piv_f st p0 X = (if sk_inner_pivot st then [LineTo p0] else [])) /\
+  (X = 0 -> piv_f st p0 X = [] /\ piv_b st p0 X = []).
+Proof. exact join_outer_side_thm. Qed.
+
+(** bevel_spec: an emitted bevel join is one line to the new offset point on either side
+    (distance width/2 from the vertex by [C04_offset_point_spec]) *)
+Theorem C04_bevel_spec :
+  forall (st : StrokeStyle R) (p0 : Point R) (ab cd : Vec2 R) (th : R),
+  emitted ab cd th -> sk_join st = JoinBevel ->
+  fst (fst (join_els st p0 ab th cd)) = piv_f st p0 (rcross ab cd) ++ [LineTo (offs (sk_width st) (-1) cd p0)] /\
+  snd (fst (join_els st p0 ab th cd)) = piv_b st p0 (rcross ab cd) ++ [LineTo (offs (sk_width st) 1 cd p0)].
+Proof. exact bevel_join_thm. Qed.
+
+(** miter_point_spec, left turn: the miter point is added to the forward (outer) path, lies on both
+    forward offset lines, and is within miter_limit * width/2 of the vertex *)
+Theorem C04_miter_point_spec_left :
+  forall (st : StrokeStyle R) (p0 : Point R) (ab cd : Vec2 R) (th : R),
+  emitted ab cd th -> sk_join st = JoinMiter -> vnonzero ab -> vnonzero cd -> 0 < sk_width st ->
+  let w := sk_width st in let X := rcross ab cd in let D := rdot ab cd in
+  let Hy := sqrt (X * X + D * D) in let ml := sk_miter_limit st in
+  2 * Hy < (Hy + D) * (ml * ml) -> 0 < X ->
+  let M := miter_pt w (-1) p0 ab cd in
+  fst (fst (join_els st p0 ab th cd)) = [LineTo M; LineTo (offs w (-1) cd p0)] /\
+  snd (fst (join_els st p0 ab th cd)) = piv_b st p0 X ++ [LineTo (offs w 1 cd p0)] /\
+  rcross ab (vec (offs w (-1) ab p0) M) = 0 /\ rcross cd (vec (offs w (-1) cd p0) M) = 0 /\
+  dist2 M p0 < (w / 2) * (w / 2) * (ml * ml).
+Proof. exact miter_left_thm. Qed.
+
+(** ... right turn: mirrored, on the backward path *)
+Theorem C04_miter_point_spec_right :
+  forall (st : StrokeStyle R) (p0 : Point R) (ab cd : Vec2 R) (th : R),
+  emitted ab cd th -> sk_join st = JoinMiter -> vnonzero ab -> vnonzero cd -> 0 < sk_width st ->
+  let w := sk_width st in let X := rcross ab cd in let D := rdot ab cd in
+  let Hy := sqrt (X * X + D * D) in let ml := sk_miter_limit st in
+  2 * Hy < (Hy + D) * (ml * ml) -> X < 0 ->
+  let M := miter_pt w 1 p0 ab cd in
+  fst (fst (join_els st p0 ab th cd)) = piv_f st p0 X ++ [LineTo (offs w (-1) cd p0)] /\
+  snd (fst (join_els st p0 ab th cd)) = [LineTo M; LineTo (offs w 1 cd p0)] /\
+  rcross ab (vec (offs w 1 ab p0) M) = 0 /\ rcross cd (vec (offs w 1 cd p0) M) = 0 /\
+  dist2 M p0 < (w / 2) * (w / 2) * (ml * ml).
+Proof. exact miter_right_thm. Qed.
+
+(** ... beyond the limit, or with X = 0: bevel *)
+Theorem C04_miter_fallback_bevel :
+  forall (st : StrokeStyle R) (p0 : Point R) (ab cd : Vec2 R) (th : R),
+  emitted ab cd th -> sk_join st = JoinMiter ->
+  let X := rcross ab cd in let D := rdot ab cd in let Hy := sqrt (X * X + D * D) in
+  ~ (2 * Hy < (Hy + D) * (sk_miter_limit st * sk_miter_limit st)) \/ X = 0 ->
+  fst (fst (join_els st p0 ab th cd)) = piv_f st p0 X ++ [LineTo (offs (sk_width st) (-1) cd p0)] /\
+  snd (fst (join_els st p0 ab th cd)) = piv_b st p0 X ++ [LineTo (offs (sk_width st) 1 cd p0)].
+Proof. exact miter_fallback_thm. Qed.
+
+(** the miter point's distance from the vertex, exactly: |M - p0|^2 (|ab||cd| + ab.cd) = (w/2)^2 2|ab||cd|,
+    i.e. |M - p0| = (w/2) / cos(turn/2) *)
+Theorem C04_miter_distance :
+  forall (w s : R) (p0 : Point R) (ab cd : Vec2 R),
+  vnonzero ab -> vnonzero cd -> rcross ab cd <> 0 -> s * s = 1 ->
+  dist2 (miter_pt w s p0 ab cd) p0 * (vlen ab * vlen cd + rdot ab cd) = (w / 2) * (w / 2) * (2 * (vlen ab * vlen cd)).
+Proof. exact miter_dist. Qed.
+
+(** ** caps (p = end point, t = direction of travel there, non-zero; w > 0) *)
+
+(** butt_cap_spec: the end is cut straight across through p: one line to the backward offset point
+    (resp. ClosePath at the start); both offset points at width/2, perpendicular to t, the forward one
+    on the right of the direction of travel and the backward one on the left *)
+Theorem C04_butt_cap_spec :
+  forall (st : StrokeStyle R) (p : Point R) (t : Vec2 R), vnonzero t -> 0 < sk_width st ->
+  let w := sk_width st in
+  (sk_end_cap st = CapButt -> end_cap_at st p t = [LineTo (offs w 1 t p)]) /\
+  (sk_start_cap st = CapButt -> start_cap_at st p t = [ClosePath]) /\
+  dist2 (offs w 1 t p) p = (w / 2) * (w / 2) /\ dist2 (offs w (-1) t p) p = (w / 2) * (w / 2) /\
+  rdot (vec p (offs w 1 t p)) t = 0 /\ rdot (vec p (offs w (-1) t p)) t = 0 /\
+  0 < rcross t (vec p (offs w 1 t p)) /\ rcross t (vec p (offs w (-1) t p)) < 0.
+Proof. exact butt_cap_thm. Qed.
+
+(** square_cap_spec, end of the sub-path: two corners at distance sqrt 2 * width/2 from p, both beyond p
+    (component +width/2 along t: a cap rotated by pi would have -width/2), then the backward offset point *)
+Theorem C04_square_cap_spec_end :
+  forall (st : StrokeStyle R) (p : Point R) (t : Vec2 R), vnonzero t -> 0 < sk_width st ->
+  sk_end_cap st = CapSquare ->
+  let w := sk_width st in
+  let q1 := along (w / 2) t (offs w (-1) t p) in
+  let q2 := along (w / 2) t (offs w 1 t p) in
+  end_cap_at st p t = [LineTo q1; LineTo q2; LineTo (offs w 1 t p)] /\
+  dist2 q1 p = 2 * ((w / 2) * (w / 2)) /\ dist2 q2 p = 2 * ((w / 2) * (w / 2)) /\
+  rdot (vec p q1) t = (w / 2) * vlen t /\ rdot (vec p q2) t = (w / 2) * vlen t /\ 0 < (w / 2) * vlen t.
+Proof. exact square_end_cap_thm. Qed.
+
+(** ... start of the sub-path: the mirror image, both corners before p, then ClosePath *)
+Theorem C04_square_cap_spec_start :
+  forall (st : StrokeStyle R) (p : Point R) (t : Vec2 R), vnonzero t ->
+  sk_start_cap st = CapSquare ->
+  let w := sk_width st in
+  let r1 := along (- (w / 2)) t (offs w 1 t p) in
+  let r2 := along (- (w / 2)) t (offs w (-1) t p) in
+  start_cap_at st p t = [LineTo r1; LineTo r2; ClosePath] /\
+  dist2 r1 p = 2 * ((w / 2) * (w / 2)) /\ dist2 r2 p = 2 * ((w / 2) * (w / 2)) /\
+  rdot (vec p r1) t = - ((w / 2) * vlen t) /\ rdot (vec p r2) t = - ((w / 2) * vlen t).
+Proof. exact square_start_cap_thm. Qed.
+
+(** ** every vertex within the style's reach *)
+
+(** outline_within_radius: for every MoveTo/LineTo/ClosePath input (any history), width > 0, bevel or
+    miter joins, butt or square caps: every end point of every element of the outline is within
+    sqrt(reach2) of a source vertex (the origin counts: a path may start with LineTo), where
+    reach2 = (width/2)^2 * max(1, miter_limit^2 for miter joins, 2 with a square cap). *)
+Theorem C04_outline_within_radius :
+  forall (st : StrokeStyle R) (els : list (PathEl R)) (tol : R) (out : list (PathEl R)),
+  0 < sk_width st -> sk_join st <> JoinRound -> sk_start_cap st <> CapRound -> sk_end_cap st <> CapRound ->
+  stroke_undashed els st tol = Some out ->
+  all_ends (near (pt_origin :: flat_map (@el_pts R) els) (reach2 st)) out.
+Proof. exact outline_within_radius. Qed.
+
+(** ** one segment *)
+
+(** single_segment_butt_exact: the outline of a two-point path with butt caps is exactly the rectangle
+    p0 - n, p1 - n, p1 + n, p0 + n, in this order, closed; for any join style and tolerance *)
+Theorem C04_single_segment_butt_exact :
+  forall (st : StrokeStyle R) (tol : R) (p0 p1 : Point R),
+  p1 <> p0 -> sk_start_cap st = CapButt -> sk_end_cap st = CapButt ->
+  let t := vec p0 p1 in let w := sk_width st in
+  stroke_undashed [MoveTo p0; LineTo p1] st tol =
+  Some [MoveTo (offs w (-1) t p0); LineTo (offs w (-1) t p1); LineTo (offs w 1 t p1); LineTo (offs w 1 t p0); ClosePath].
+Proof. exact single_segment_butt_exact_thm. Qed.
+
+(** ... and it is traversed with positive orientation: twice the signed area is 2 * width * length *)
+Theorem C04_single_segment_orientation :
+  forall (w : R) (t : Vec2 R) (p0 p1 : Point R), t = vec p0 p1 -> vnonzero t ->
+  shoelace2 [offs w (-1) t p0; offs w (-1) t p1; offs w 1 t p1; offs w 1 t p0] = 2 * (w * vlen t).
+Proof. exact single_segment_orientation. Qed.
+
+(** ... and the region-level statement for one segment: with [q] = the point whose foot on the segment has
+    parameter [al] and whose signed distance to it is [be * width/2], the outline winds once around q
+    when the foot is strictly interior and the distance below width/2, and not at all when the foot is
+    beyond an end or the distance above width/2. (Crossing-number winding with the half-open rule,
+    [outline_wn]; every point of the plane is [seg_point w p0 t al be] for exactly one (al, be).) *)
+Theorem C04_single_segment_butt_region :
+  forall (st : StrokeStyle R) (tol : R) (p0 p1 : Point R) (out : list (PathEl R)) (al be : R),
+  p1 <> p0 -> sk_start_cap st = CapButt -> sk_end_cap st = CapButt -> 0 < sk_width st ->
+  stroke_undashed [MoveTo p0; LineTo p1] st tol = Some out ->
+  let q := seg_point (sk_width st) p0 (vec p0 p1) al be in
+  (0 < al < 1 -> -1 < be < 1 -> outline_wn out q = 1%Z) /\
+  (al < 0 \/ 1 < al \/ be < -1 \/ 1 < be -> outline_wn out q = 0%Z).
+Proof.
+  intros st tol p0 p1 out al be Hne Hs He Hw Hout.
+  rewrite (single_segment_butt_exact_thm st tol p0 p1 Hne Hs He) in Hout. injection Hout as <-.
+  exact (single_segment_region_thm (sk_width st) p0 p1 al be Hne Hw).
+Qed.
+
+(** with square caps: the rectangle extended by width/2 at both ends *)
+Theorem C04_single_segment_square_exact :
+  forall (st : StrokeStyle R) (tol : R) (p0 p1 : Point R),
+  p1 <> p0 -> sk_start_cap st = CapSquare -> sk_end_cap st = CapSquare ->
+  let t := vec p0 p1 in let w := sk_width st in
+  stroke_undashed [MoveTo p0; LineTo p1] st tol =
+  Some [MoveTo (offs w (-1) t p0); LineTo (offs w (-1) t p1);
+        LineTo (along (w / 2) t (offs w (-1) t p1)); LineTo (along (w / 2) t (offs w 1 t p1)); LineTo (offs w 1 t p1);
+        LineTo (offs w 1 t p0);
+        LineTo (along (- (w / 2)) t (offs w 1 t p0)); LineTo (along (- (w / 2)) t (offs w (-1) t p0)); ClosePath].
+Proof. exact single_segment_square_exact_thm. Qed.
+
+(** ** the region-level statement for open polylines (bevel joins, butt caps, repaired join, no join skipped)
+
+    [all_emitted th p1 t1 r]: every turn of the polyline passes the join test of [do_join] for the
+    threshold th = 2 tolerance / width (always true for tolerance 0: [C04_all_emitted_at_zero_tolerance]).
+
+    [e q a b] is the crossing contribution of the directed edge a -> b about q; [hex] is the rectangle of
+    one edge (with the two mid-points of its short sides as extra vertices), [join_piece] the triangle
+    vertex / old offset point / new offset point on the outer side of a turn (both degenerate triangles,
+    which cancel, when the edges are parallel); [pieces] sums them along the polyline. *)
+
+(** decomposition: the outline winds around every point q exactly as often as the rectangle of the first
+    edge plus all later rectangles and outer-side triangles do. (With the join of the pinned code the
+    triangle on the inner side enters with a minus sign: [C04_pinned_inner_join_refuted].) *)
+Theorem C04_polyline_decomposition :
+  forall (st : StrokeStyle R) (q p0 : Point R) (ps : list (Point R)) (p1 : Point R) (r : list (Point R))
+         (out : list (PathEl R)),
+  sk_join st = JoinBevel -> sk_inner_pivot st = true ->
+  sk_start_cap st = CapButt -> sk_end_cap st = CapButt ->
+  forall tol : R,
+  first_edge p0 ps = Some (p1, r) ->
+  all_emitted (2 * tol / sk_width st) p1 (vec p0 p1) r ->
+  stroke_undashed (MoveTo p0 :: map (@LineTo R) ps) st tol = Some out ->
+  outline_wn out q = (hex st q p0 p1 (vec p0 p1) + pieces st q p1 (vec p0 p1) r)%Z.
+Proof.
+  intros st q p0 ps p1 r out Hb Hp Hs He tol E Ha Ho.
+  exact (polyline_decomposition_thm st Hb Hp q tol p0 ps p1 r out Hs He E Ha Ho).
+Qed.
+
+Theorem C04_all_emitted_at_zero_tolerance :
+  forall (ps : list (Point R)) (lp : Point R) (lt : Vec2 R), all_emitted 0 lp lt ps.
+Proof. exact all_emitted_th0. Qed.
+
+(** every piece is traversed positively: its winding is 0 or 1 everywhere; the rectangle's is 1 exactly
+    where the foot is interior and the distance below width/2, and 0 beyond; the triangle's is 0 farther
+    than width/2 from the vertex *)
+Theorem C04_piece_values :
+  forall (st : StrokeStyle R) (q : Point R), 0 < sk_width st ->
+  (forall P P', P' <> P ->
+     (0 <= hex st q P P' (vec P P') <= 1)%Z /\
+     (0 < foot_par P P' q < 1 -> -1 < rel_dist (sk_width st) P P' q < 1 -> hex st q P P' (vec P P') = 1%Z) /\
+     (foot_par P P' q < 0 \/ 1 < foot_par P P' q \/ rel_dist (sk_width st) P P' q < -1 \/ 1 < rel_dist (sk_width st) P P' q ->
+      hex st q P P' (vec P P') = 0%Z)) /\
+  (forall P t t', vnonzero t -> vnonzero t' ->
+     (0 <= join_piece st q P t t' <= 1)%Z /\
+     ((sk_width st / 2) * (sk_width st / 2) < dist2 q P -> join_piece st q P t t' = 0%Z)).
+Proof.
+  intros st q Hw. split.
+  - intros P P' Hne. exact (hex_value st q Hw P P' Hne).
+  - intros P t t' Hn Hn'. exact (join_piece_value st q Hw P t t' Hn Hn').
+Qed.
+
+(** the property itself, for this class of inputs and styles, in exact arithmetic, for EVERY point q:
+    - if, for some edge (a, b), the foot of q is strictly inside the edge and q is closer than width/2 to it,
+      the outline winds at least once around q (it is filled by the non-zero rule);
+    - if q is farther than width/2 from every point of every edge, the outline does not wind around q;
+    - the winding number is never negative. *)
+Theorem C04_open_polyline_region :
+  forall (st : StrokeStyle R) (q p0 : Point R) (ps : list (Point R)) (p1 : Point R) (r : list (Point R))
+         (out : list (PathEl R)),
+  0 < sk_width st -> sk_join st = JoinBevel -> sk_inner_pivot st = true ->
+  sk_start_cap st = CapButt -> sk_end_cap st = CapButt ->
+  forall tol : R,
+  first_edge p0 ps = Some (p1, r) ->
+  all_emitted (2 * tol / sk_width st) p1 (vec p0 p1) r ->
+  stroke_undashed (MoveTo p0 :: map (@LineTo R) ps) st tol = Some out ->
+  let w := sk_width st in
+  let edges := (p0, p1) :: poly_edges p1 r in
+  (forall a b, In (a, b) edges ->
+     0 < foot_par a b q < 1 -> -1 < rel_dist w a b q < 1 -> (1 <= outline_wn out q)%Z) /\
+  ((forall a b, In (a, b) edges -> seg_far a b q ((w / 2) * (w / 2))) -> outline_wn out q = 0%Z) /\
+  (0 <= outline_wn out q)%Z.
+Proof.
+  intros st q p0 ps p1 r out Hw Hb Hp Hs He tol E Ha Ho.
+  exact (open_polyline_region_thm st q Hw Hb Hp Hs He tol p0 ps p1 r out E Ha Ho).
+Qed.
+
+(** the same for a closed polyline (two contours; no caps): the pieces along the way back to the start plus
+    the closing join between the last and the first edge, which must pass the join test as well *)
+Theorem C04_closed_polyline_decomposition :
+  forall (st : StrokeStyle R) (q p0 : Point R) (ps : list (Point R)) (p1 : Point R) (r : list (Point R))
+         (out : list (PathEl R)) (tol : R),
+  sk_join st = JoinBevel -> sk_inner_pivot st = true ->
+  first_edge p0 (ps ++ [p0]) = Some (p1, r) ->
+  all_emitted (2 * tol / sk_width st) p1 (vec p0 p1) r ->
+  emitted (snd (last_state p1 (vec p0 p1) r)) (vec p0 p1) (2 * tol / sk_width st) ->
+  stroke_undashed (MoveTo p0 :: map (@LineTo R) ps ++ [ClosePath]) st tol = Some out ->
+  outline_wn out q =
+  (hex st q p0 p1 (vec p0 p1) + pieces st q p1 (vec p0 p1) r +
+   join_piece st q p0 (snd (last_state p1 (vec p0 p1) r)) (vec p0 p1))%Z.
+Proof.
+  intros st q p0 ps p1 r out tol Hb Hp E Ha Hc Ho.
+  exact (closed_polyline_decomposition_thm st Hb Hp q tol p0 ps p1 r out E Ha Hc Ho).
+Qed.
+
+Theorem C04_closed_polyline_region :
+  forall (st : StrokeStyle R) (q p0 : Point R) (ps : list (Point R)) (p1 : Point R) (r : list (Point R))
+         (out : list (PathEl R)) (tol : R),
+  0 < sk_width st -> sk_join st = JoinBevel -> sk_inner_pivot st = true ->
+  first_edge p0 (ps ++ [p0]) = Some (p1, r) ->
+  all_emitted (2 * tol / sk_width st) p1 (vec p0 p1) r ->
+  emitted (snd (last_state p1 (vec p0 p1) r)) (vec p0 p1) (2 * tol / sk_width st) ->
+  stroke_undashed (MoveTo p0 :: map (@LineTo R) ps ++ [ClosePath]) st tol = Some out ->
+  let w := sk_width st in
+  let edges := (p0, p1) :: poly_edges p1 r in
+  (forall a b, In (a, b) edges ->
+     0 < foot_par a b q < 1 -> -1 < rel_dist w a b q < 1 -> (1 <= outline_wn out q)%Z) /\
+  ((forall a b, In (a, b) edges -> seg_far a b q ((w / 2) * (w / 2))) -> outline_wn out q = 0%Z) /\
+  (0 <= outline_wn out q)%Z.
+Proof.
+  intros st q p0 ps p1 r out tol Hw Hb Hp E Ha Hc Ho.
+  exact (closed_polyline_region_thm st q Hw Hb Hp tol p0 ps p1 r out E Ha Hc Ho).
+Qed.
+
+(** ** the pinned join violates the property; the repaired join does not (on the witness)
+
+    binary64 instance, every number exactly representable ([witness_path] etc. in proofs/C04_witness.v):
+    M(0,0) L(1,0) L(1,10), width 4, bevel, butt, tolerance 1/16. q = (-1/2, 1/4) is at distance 3/2 < width/2 = 2 from (1, 1/4), an interior point of
+    the second segment, so the property requires it to be filled. With the join of the pinned code
+    ([sk_inner_pivot = false]) the outline is the octagon below and winds 0 times around q: the triangle
+    (1,0), (-1,0), (1,2) on the inner side of the turn is traversed negatively and cancels the second
+    segment's rectangle where the first segment (shorter than width/2) does not cover it. With the
+    repaired join the outline winds once around q. *)
+Theorem C04_pinned_inner_join_refuted :
+  exists path st tol q out,
+  path = witness_path /\ st = witness_style false /\ sk_inner_pivot st = false /\ q = witness_q /\
+  stroke_undashed path st tol = Some out /\ out = witness_outline /\
+  outline_wn out q = 0%Z.
+Proof.
+  exists witness_path, (witness_style false), witness_tol, witness_q, witness_outline.
+  repeat split; try reflexivity; try exact pinned_inner_join_outline; exact pinned_outline_winding.
+Qed.
+
+Theorem C04_repaired_join_fills_witness :
+  option_map (fun out => outline_wn out witness_q)
+             (stroke_undashed witness_path (witness_style true) witness_tol) = Some 1%Z.
+Proof. exact repaired_inner_join_winding. Qed.
+
+(** ** non-vacuity: concrete instances meeting the hypotheses *)
+Example C04_ex_vnonzero : vnonzero (mkVec2 3 4) /\ vlen (mkVec2 3 4) = 5.
+Proof.
+  split; [left; cbn; lra|]. unfold vlen; cbn.
+  replace (3 * 3 + 4 * 4) with (5 * 5) by ring. apply sqrt_square. lra.
+Qed.
+
+(* a left turn by a right angle is emitted for every threshold <= 1 and takes the miter branch for limit 4 *)
+Example C04_ex_miter_hyps :
+  let ab := mkVec2 1 0 in let cd := mkVec2 0 1 in
+  emitted ab cd (1 / 2) /\ 0 < rcross ab cd /\
+  2 * sqrt (rcross ab cd * rcross ab cd + rdot ab cd * rdot ab cd) <
+  (sqrt (rcross ab cd * rcross ab cd + rdot ab cd * rdot ab cd) + rdot ab cd) * (4 * 4).
+Proof.
+  cbv zeta. unfold emitted, rcross, rdot; cbn [vx vy].
+  replace (1 * 1 - 0 * 0) with 1 by ring. replace (1 * 0 + 0 * 1) with 0 by ring.
+  replace (1 * 1 + 0 * 0) with 1 by ring. rewrite sqrt_1.
+  split; [left; lra | split; lra].
+Qed.
+
+(* a straight continuation with a positive threshold is skipped *)
+Example C04_ex_skipped :
+  let ab := mkVec2 1 0 in let cd := mkVec2 2 0 in
+  0 < rdot ab cd /\ Rabs (rcross ab cd) < sqrt (rcross ab cd * rcross ab cd + rdot ab cd * rdot ab cd) * (1 / 10).
+Proof.
+  cbv zeta. unfold rcross, rdot; cbn [vx vy].
+  replace (1 * 0 - 0 * 2) with 0 by ring. replace (1 * 2 + 0 * 0) with 2 by ring.
+  rewrite Rabs_R0. replace (0 * 0 + 2 * 2) with (2 * 2) by ring. rewrite sqrt_square by lra.
+  split; lra.
+Qed.
+
+(** ** the full statement, NOT proved
+
+    [covered] / [no_overreach] are the two halves of the property for an outline made of lines
+    (bevel or miter joins, butt or square caps), with the crossing-number winding [outline_wn]:
+    - every point q whose foot on some source segment (a, b) is strictly inside it and whose distance to
+      that segment is below width/2 has non-zero winding number;
+    - every point farther than sqrt(reach2) from every source segment has winding number 0.
+    Proved of it: [C04_open_polyline_region] (one open sub-path, butt caps) and [C04_closed_polyline_region]
+    (one closed sub-path), both for bevel joins, every turn at or above the join threshold, repaired join;
+    and [C04_single_segment_butt_region]. Missing for [C04_full_polyline]:
+    (1) several sub-paths (the winding numbers add; more chain algebra, same pieces); (2) the pieces of the other styles: the miter quadrilateral and the square-cap rectangles
+    (convex, positively traversed: same kind of case analysis as [rect_wn] / [tri_wn]); (3) turns below
+    the join threshold: the join is skipped, the outline then cuts a corner of depth <= tolerance,
+    so the statement holds only outside a band of that width (the exact statement above assumes no
+    such turn; for tolerance 0 there is none); (4) [source_segments] below is phrased with [segments] (Path.v) and would have to be
+    related to [poly_edges]. With the pinned join the statement is false (see above).
+    For round joins/caps and for curve elements there is not even a model:
+    [do_cubic] -> [CubicOffset::new_regularized] -> [fit_to_bezpath] (curve fitting with an accuracy test
+    by sampling) and [Arc::append_iter] (4/3 tan(step/4) arms: radial error 2.7e-4 per quarter turn at the
+    hard-coded tolerance 1e-3) would have to be shown to stay within the tolerance band; that needs
+    a proof of the fitter's error estimate (C18) and of the arc approximation (C10). *)
+Definition source_segments (els : list (PathEl R)) : list (Point R * Point R) :=
+  match segments els with
+  | Some segs => flat_map (fun s => match s with SegLine l => [(l0 l, l1 l)] | _ => [] end) segs
+  | None => []
+  end.
+
+(* band = 3 * tolerance, as in the property text: the foot is interior by more than the band and the
+   distance below width/2 by more than the band *)
+Definition covered (els out : list (PathEl R)) (w band : R) : Prop :=
+  forall a b q, In (a, b) (source_segments els) ->
+  band * vlen (vec a b) < rdot (vec a q) (vec a b) < (vlen (vec a b) - band) * vlen (vec a b) ->
+  Rabs (rcross (vec a b) (vec a q)) < (w / 2 - band) * vlen (vec a b) ->
+  outline_wn out q <> 0%Z.
+
+Definition no_overreach (els out : list (PathEl R)) (r2 : R) : Prop :=
+  forall q, (forall a b, In (a, b) (source_segments els) -> seg_far a b q r2) -> outline_wn out q = 0%Z.
+
+Definition C04_full_polyline : Prop :=
+  forall (st : StrokeStyle R) (els out : list (PathEl R)) (tol : R),
+  sk_inner_pivot st = true -> 0 < sk_width st -> 0 <= tol ->
+  sk_join st <> JoinRound -> sk_start_cap st <> CapRound -> sk_end_cap st <> CapRound ->
+  match els with MoveTo _ :: _ => True | _ => False end ->
+  stroke_undashed els st tol = Some out ->
+  covered els out (sk_width st) (3 * tol) /\
+  no_overreach els out ((sqrt (reach2 st) + 3 * tol) * (sqrt (reach2 st) + 3 * tol)).
+
+(** for curves and round styles the statement needs a real-number semantics of the cubic outline
+    (winding number of a piecewise-cubic closed curve) and a model of the curve path of the stroker;
+    neither exists in this development, so that part of C04 is stated only in prose (properties.jsonl)
+    and checked by the laws of harness/src/c04.rs *)
+Definition C04_full : Prop := C04_full_polyline.
